@@ -188,6 +188,15 @@ def ops_grid(cfgname):
     add("delete_multi", "delete_multi", ["h1", "m1"], noreply=False)
     add("close", "close")
     add("disconnect_all", "disconnect_all")
+    # commands that are not key-addressed, on the stacks that offer them (a stack without the method is skipped)
+    add("raw-version", "raw_command", "version")
+    add("raw-get-END", "raw_command", b"get h1", b"END\r\n")
+    add("version", "version")
+    add("stats", "stats")
+    add("stats-settings", "stats", "settings")
+    add("flush_all", "flush_all", noreply=False)
+    add("flush_all-delay", "flush_all", 3)
+    add("quit", "quit")
     add("set-badexpire", "set", "k", b"v", expire="soon")
     add("incr-baddelta", "incr", "num", "1")
     add("get_many", "get_many", ["h1", "m1", "num"])
@@ -261,6 +270,8 @@ def run_one(stack, cfg, method, args, kwargs):
     net.begin_call(0)
     args = tuple(_materialise(a) for a in args)
     try:
+        if method in ("raw_command", "version", "stats", "flush_all", "quit") and stack.startswith("hash"):
+            return ("unsupported",), [], set(), srv          # fan-out / not offered: no single-server equivalent
         if method.startswith("__"):
             if not hasattr(type(obj), method):
                 return ("unsupported",), [], set(), srv
@@ -295,6 +306,10 @@ def run_session(stack, cfg, ops):
         net.begin_call(i)
         a = tuple(_materialise(x) for x in args)
         try:
+            if method in ("raw_command", "version", "stats", "flush_all", "quit") and stack.startswith("hash"):
+                steps.append((("unsupported",), []))
+                net.end_call()
+                continue
             if method.startswith("__"):
                 if not hasattr(type(obj), method):
                     steps.append((("unsupported",), []))
